@@ -158,6 +158,13 @@ def run(chk):
             fn = stem + "." + fmt.lower()
             if C.excname(sh.save, fmt, fn)[0] == "ok" and os.path.exists(fn):
                 written[fmt] = open(fn, "rb").read()
+        # ... and exporting once more to a path that already holds a file REPLACES it (same bytes as a single export)
+        for fmt in list(written):
+            fn = stem + "." + fmt.lower()
+            if C.excname(sh.save, fmt, fn)[0] != "ok" or open(fn, "rb").read() != written[fmt]:
+                chk.violation("re-export-does-not-replace-the-file", dict(kind=kind, cls=type(sh).__name__, fmt=fmt, vertices=V.tolist(), faces=F,
+                                                                          first_size=len(written[fmt]), second_size=os.path.getsize(fn) if os.path.exists(fn) else None))
+                break
         for fmt, data0 in written.items():
             fn = stem + "." + fmt.lower()
             if not os.path.exists(fn) or open(fn, "rb").read() != data0:
